@@ -8,6 +8,7 @@ import (
 	"fmt"
 	"io"
 	"sync"
+	"sync/atomic"
 
 	"github.com/alicebob/sqlittle"
 	sqsql "github.com/alicebob/sqlittle/sql"
@@ -72,6 +73,9 @@ func (*Tx) Commit() error {
 type Statement struct {
 	dbh *sqlittle.DB
 	SQL string
+	// 1 while a result set of this statement is open: there is a single
+	// database handle per statement
+	busy int32
 }
 
 var (
@@ -99,7 +103,18 @@ func (st *Statement) Query([]driver.Value) (driver.Rows, error) {
 	return nil, driver.ErrSkip
 }
 
-func (st *Statement) QueryContext(ctx context.Context, v []driver.NamedValue) (driver.Rows, error) {
+func (st *Statement) QueryContext(ctx context.Context, v []driver.NamedValue) (rs driver.Rows, err error) {
+	// A statement on a sql.Tx or sql.Conn can be executed again while its
+	// previous result set is still open. Both would use the same handle -
+	// from two goroutines, and with one read lock for the two of them.
+	if !atomic.CompareAndSwapInt32(&st.busy, 0, 1) {
+		return nil, errors.New("statement has an open result set")
+	}
+	defer func() {
+		if err != nil {
+			atomic.StoreInt32(&st.busy, 0)
+		}
+	}()
 	stmt, err := sqsql.Parse(st.SQL)
 	if err != nil {
 		return nil, err
@@ -123,6 +138,7 @@ func (st *Statement) QueryContext(ctx context.Context, v []driver.NamedValue) (d
 		columns: cols,
 		rows:    make(chan sqlittle.Row),
 		cancel:  cancel,
+		busy:    &st.busy,
 	}
 
 	rows.wg.Add(1)
@@ -178,11 +194,13 @@ type Rows struct {
 	wg      sync.WaitGroup
 	cancel  func()
 	err     error
+	busy    *int32 // of the statement
 }
 
 func (r *Rows) Close() error {
 	r.cancel()
 	r.wg.Wait()
+	atomic.StoreInt32(r.busy, 0)
 	return r.err
 }
 
